@@ -568,7 +568,7 @@ private theorem as_kind_of_eval (E : ErrClass → Prop) (cfg : CheckCfg) (c : Sp
 /-- … and for whole programs (`Spec.run`: evaluate, then the conversion the compiler appends for
 `AsInt64` / `AsFloat64`): under `AsBool` the result is exactly a `bool`, under `AsInt64` exactly an
 `int64`, under `AsFloat64` exactly a `float64`, or the run fails with a value-dependent error (`τ` scalar: not an
-`interface{}`-typed result, which the directives also admit). -/
+`interface{}`-typed result, which the directives also allow). -/
 theorem as_kind_exact_collections_partial (cfg : CheckCfg) (c : Spec.SCfg) (henv : EnvConforms2 cfg c.env)
     (n n' : Node) (τ : OTy) (hfrag : inFrag2 false n = true) (hstatic : typed2 cfg [] n = true)
     (h : check cfg n = .ok n' τ) (hτs : ScalarT τ) :
